@@ -606,31 +606,44 @@ fn c04(case: &Case, ctx: &Ctx, rpt: &mut Report) {
                     );
                     // (With a repetition-edge tree wildcard elsewhere in the expression the rest of
                     // the segmentation needs that listed quirk as well, as in the branch below.)
+                    // A quirked segmentation that runs out of the model's budget decides nothing:
+                    // the cause of the disagreement is then undecided (inconclusive), neither a
+                    // listed finding nor a new violation.
+                    let mut undecided = false;
+                    let mut seg = |q: Quirks| {
+                        let r = segmentation_ok(ast, model, &pc, &caps, q);
+                        if r == Tri::Unknown {
+                            undecided = true;
+                        }
+                        r == Tri::Yes
+                    };
                     let key = if first_is_rooted_tree
                         && caps.first().map_or(false, |c| c.map_or(false, |(cs, _)| cs == 0))
-                        && (segmentation_ok(ast, model, &pc, &caps, rooted_quirk) == Tri::Yes
-                            || segmentation_ok(
-                                ast,
-                                model,
-                                &pc,
-                                &caps,
-                                Quirks {
-                                    rooted_leading_tree_is_dotstar: true,
-                                    rep_edge_tree_any_form: true,
-                                },
-                            ) == Tri::Yes)
+                        && (seg(rooted_quirk)
+                            || seg(Quirks {
+                                rooted_leading_tree_is_dotstar: true,
+                                rep_edge_tree_any_form: true,
+                            }))
                     {
                         Some("rooted-leading-tree-captures-partial-component")
                     }
                     else {
                         None
                     };
-                    rpt.disagreement(
-                        &ctx.known,
-                        "tree-capture-is-not-a-run-of-complete-components",
-                        key,
-                        json!({"expr": clip(case.expr), "path": clip(p), "captures": (1..=n).map(|i| mt.get(i)).collect::<Vec<_>>()}),
-                    );
+                    if key.is_none() && undecided {
+                        rpt.inconclusive(
+                            "attribution-to-listed-deviation-exceeds-model-budget",
+                            json!({"expr": clip(case.expr), "path": clip(p)}),
+                        );
+                    }
+                    else {
+                        rpt.disagreement(
+                            &ctx.known,
+                            "tree-capture-is-not-a-run-of-complete-components",
+                            key,
+                            json!({"expr": clip(case.expr), "path": clip(p), "captures": (1..=n).map(|i| mt.get(i)).collect::<Vec<_>>()}),
+                        );
+                    }
                 }
                 else {
                     match segmentation_ok(ast, model, &pc, &caps, Quirks::default()) {
@@ -651,26 +664,42 @@ fn c04(case: &Case, ctx: &Ctx, rpt: &mut Report) {
                                     rooted_leading_tree_is_dotstar: true,
                                     rep_edge_tree_any_form: true,
                                 };
-                                let key = if first_is_rooted_tree
-                                    && segmentation_ok(ast, model, &pc, &caps, rooted_quirk) == Tri::Yes
-                                {
+                                let mut undecided = false;
+                                let mut seg = |q: Quirks| {
+                                    let r = segmentation_ok(ast, model, &pc, &caps, q);
+                                    if r == Tri::Unknown {
+                                        undecided = true;
+                                    }
+                                    r == Tri::Yes
+                                };
+                                let key = if first_is_rooted_tree && seg(rooted_quirk) {
                                     Some("rooted-leading-tree-captures-partial-component")
                                 }
-                                else if segmentation_ok(ast, model, &pc, &caps, rep_edge_quirk) == Tri::Yes {
+                                else if seg(rep_edge_quirk) {
                                     Some("tree-wildcard-at-edge-of-repetition-body-encoded-as-expression-edge")
                                 }
-                                else if first_is_rooted_tree && segmentation_ok(ast, model, &pc, &caps, both_quirks) == Tri::Yes {
+                                else if first_is_rooted_tree && seg(both_quirks) {
                                     Some("rooted-leading-tree-captures-partial-component")
                                 }
                                 else {
                                     None
                                 };
-                                rpt.disagreement(
-                                    &ctx.known,
-                                    "captures-inconsistent-with-expression",
-                                    key,
-                                    json!({"expr": clip(case.expr), "path": clip(p), "captures": (1..=n).map(|i| mt.get(i)).collect::<Vec<_>>()}),
-                                );
+                                if key.is_none() && undecided {
+                                    // (Thorough tier, seed 2: `<<</**/a:3,5>:2,>:2,>/**` on a
+                                    // 300-character path; see DESIGN section 13.)
+                                    rpt.inconclusive(
+                                        "attribution-to-listed-deviation-exceeds-model-budget",
+                                        json!({"expr": clip(case.expr), "path": clip(p)}),
+                                    );
+                                }
+                                else {
+                                    rpt.disagreement(
+                                        &ctx.known,
+                                        "captures-inconsistent-with-expression",
+                                        key,
+                                        json!({"expr": clip(case.expr), "path": clip(p), "captures": (1..=n).map(|i| mt.get(i)).collect::<Vec<_>>()}),
+                                    );
+                                }
                             }
                         },
                     }
